@@ -642,7 +642,11 @@ XalanDOMString::compare(
 {
     invariants();
 
-    return doCompare(c_str() + thePosition1, theCount1, theString, theCount2);
+    return doCompare(
+                c_str() + thePosition1,
+                theCount1,
+                theString,
+                theCount2 == size_type(npos) ? length(theString) : theCount2);
 }
 
 
